@@ -47,3 +47,14 @@ Definition mode_free (calls : list (string * string)) : bool :=
 Theorem C15_model_built_mode_free : mode_free cli_model_calls = true.
 Proof. vm_compute. reflexivity. Qed.
 Print Assumptions C15_model_built_mode_free.
+
+(* Part 4: the same over the hand model of the pipeline, for every mode (Cli.cli_model; compared with observed runs of
+   the real command line by the certified chk_cli_run, see Props/C10.v part 1b): every mode emits exactly the expected
+   views, and the model is built and rendered by the same six argument-free stages whatever the mode. *)
+Theorem C15_cli_model_modes : forall m, outputs (cli_model m) = expected_outputs m.
+Proof. exact cli_model_outputs. Qed.
+Print Assumptions C15_cli_model_modes.
+Theorem C15_cli_model_mode_free : forall m m',
+  filter is_call (firstn 6 (cli_model m)) = filter is_call (firstn 6 (cli_model m')).
+Proof. exact cli_model_mode_free. Qed.
+Print Assumptions C15_cli_model_mode_free.
